@@ -201,6 +201,22 @@ class Flow:
     def node_for(self, expr: ast.AST) -> int:
         return self.cfg.node_for(expr)
 
+    def origin_defs(self, var: str, node: int, _seen=None) -> list[Def]:
+        """Defining (non-aug, non-mutate) definitions of var reaching `node`, looking through `x op= ...`."""
+        _seen = _seen if _seen is not None else set()
+        out: list[Def] = []
+        for d in self.reaching(var, node):
+            if id(d) in _seen:
+                continue
+            _seen.add(id(d))
+            if d.kind == "aug":
+                out += self.origin_defs(var, d.node, _seen)
+            elif d.kind == "mutate":
+                continue
+            else:
+                out.append(d)
+        return out
+
     # -- comprehension-bound names ----------------------------------------------
     @staticmethod
     def _bound_in_comprehension(name_node: ast.Name) -> bool:
